@@ -8,8 +8,10 @@ import (
 
 	"github.com/agglayer/aggkit/l1infotreesync"
 	aggsync "github.com/agglayer/aggkit/sync"
+	treetypes "github.com/agglayer/aggkit/tree/types"
 	"github.com/ethereum/go-ethereum/common"
 
+	"verifharness/iofault"
 	"verifharness/names"
 	"verifharness/tr"
 )
@@ -459,10 +461,22 @@ func (k *l1Kind) snapshot() tr.M {
 				continue
 			}
 			at := 1 + rng.Intn(140)
-			armAuth(k.dbPath(), -1, at)
-			pr, err := k.node.GetL1InfoTreeMerkleProofFromIndexToRoot(ctx, uint32(p), r.Hash)
-			fired, _ := disarmAuth()
-			m := tr.M{"r": i, "p": p, "c": classify(err), "fired": fired, "at": at}
+			var pr treetypes.Proof
+			var fired bool
+			how := "auth"
+			if q%2 == 1 {
+				how, at = "io", 1+rng.Intn(6)
+				if err := iofault.Arm(k.dbPath(), iofault.Read, at); err != nil {
+					panic(err)
+				}
+				pr, err = k.node.GetL1InfoTreeMerkleProofFromIndexToRoot(ctx, uint32(p), r.Hash)
+				fired, _ = iofault.Disarm()
+			} else {
+				armAuth(k.dbPath(), -1, at)
+				pr, err = k.node.GetL1InfoTreeMerkleProofFromIndexToRoot(ctx, uint32(p), r.Hash)
+				fired, _ = disarmAuth()
+			}
+			m := tr.M{"r": i, "p": p, "c": classify(err), "fired": fired, "at": at, "how": how}
 			if err == nil {
 				m["sib"] = elide(k.dict, pr)
 			}
